@@ -641,7 +641,7 @@ class Interp:
         view = LoopView(self, env)
         # entry
         g = inv(0 if n is not None else None, view)
-        self.p.oblige(lab + ":inv_entry", "loop_inv_entry", g, self.where(st), "invariant holds on entry")
+        self._oblige_inv(lab + ":inv_entry", "loop_inv_entry", g, st, "invariant holds on entry")
         # havoc
         self.s.havoc_loop(self, st, env, inv)
         if n is not None:
@@ -649,7 +649,7 @@ class Interp:
             self.p.assume(z3.And(k >= 0, k <= n))
         else:
             k = None
-        self.p.assume(_tobool(inv(k, LoopView(self, env))))
+        self.p.assume(self._inv_formula(inv(k, LoopView(self, env))))
         if n is not None:
             cont = self.decide(k < n)
         else:
@@ -664,12 +664,24 @@ class Interp:
             except _Break:
                 return  # leaves the loop from here, orelse skipped
             g = inv(simp(k + 1) if k is not None else None, LoopView(self, env))
-            self.p.oblige(lab + ":inv_preserved", "loop_inv_preserved", g, self.where(st), "invariant preserved by the body")
+            self._oblige_inv(lab + ":inv_preserved", "loop_inv_preserved", g, st, "invariant preserved by the body")
             raise PathEnd()
         else:
             if n is not None:
                 self.p.assume(k == n)
             self.exec_block(st.orelse, env)
+
+    def _oblige_inv(self, oid, kind, g, st, note):
+        """an invariant may be given clause by clause (dict): one obligation per clause"""
+        if isinstance(g, dict):
+            for name, f in g.items():
+                self.p.oblige(f"{oid}:{name}", kind, f, self.where(st), f"{note} (clause {name})")
+        else:
+            self.p.oblige(oid, kind, g, self.where(st), note)
+
+    @staticmethod
+    def _inv_formula(g):
+        return S.And(*g.values()) if isinstance(g, dict) else g
 
     def abstract_loop(self, st, env, coll):
         """loop over a collection known only through a membership predicate (dict items,
@@ -680,10 +692,9 @@ class Interp:
         if inv is None:
             raise Unsupported(f"loop over an abstract collection without invariant at line {st.lineno} ({self.frame.qualname})")
         lab = self.oid(st)
-        self.p.oblige(lab + ":inv_entry", "loop_inv_entry", inv(None, LoopView(self, env)), self.where(st),
-                      "invariant holds on entry")
+        self._oblige_inv(lab + ":inv_entry", "loop_inv_entry", inv(None, LoopView(self, env)), st, "invariant holds on entry")
         self.s.havoc_loop(self, st, env, inv)
-        self.p.assume(inv(None, LoopView(self, env)))
+        self.p.assume(self._inv_formula(inv(None, LoopView(self, env))))
         more = self.p.fresh("iterate", "bool")
         if self.decide(more):
             self.assign(st.target, coll.arbitrary(self), env)
@@ -693,8 +704,8 @@ class Interp:
                 pass
             except _Break:
                 return
-            self.p.oblige(lab + ":inv_preserved", "loop_inv_preserved", inv(None, LoopView(self, env)), self.where(st),
-                          "invariant preserved by the body (for an arbitrary element)")
+            self._oblige_inv(lab + ":inv_preserved", "loop_inv_preserved", inv(None, LoopView(self, env)), st,
+                             "invariant preserved by the body (for an arbitrary element)")
             ip = self.s.loop_iter_post(self.frame, st)
             if ip is not None:
                 self.p.oblige(lab + ":iteration_effect", "loop_iteration_effect", ip(LoopView(self, env)), self.where(st),
@@ -844,10 +855,18 @@ class Interp:
         return Func(e, self.frame.func.module, f"{self.frame.qualname}.<lambda>", closure=env)
 
     def ex_Await(self, e, env):
-        r = self.s.hook("await_", self, e, env)
+        # `await f(...)` on an in-repo coroutine function runs f's body in the same task: it is
+        # inlined; its own awaits are the cut points.  Awaiting a primitive (a Coro value created
+        # by a modelled external / library call) is a cut point: see the model's `suspend`.
+        self._awaiting = getattr(self, "_awaiting", 0) + 1
+        try:
+            v = self.eval(e.value, env)
+        finally:
+            self._awaiting -= 1
+        r = self.s.hook("await_value", self, v, e, env)
         if r is not NotImplemented:
             return r
-        raise Unsupported("await")
+        return v
 
     def ex_BoolOp(self, e, env):
         is_and = isinstance(e.op, ast.And)
@@ -1311,6 +1330,10 @@ class Interp:
                     args.extend(v)
                 elif isinstance(v, SymGen) and isinstance(v.n, int) and v.cond is None:
                     args.extend(v.elem(i) for i in range(v.n))
+                elif getattr(v, "is_abstract_collection", False):
+                    if star is not None or a is not e.args[-1]:
+                        raise Unsupported("abstract *args not in last position")
+                    star = v
                 else:
                     sv = as_seq(v) if not isinstance(v, SymGen) else SymSeq(v.n, v.elem)
                     if isinstance(sv.length, int):
@@ -1463,23 +1486,30 @@ class Interp:
                 return self.s.apply_contract(self, c, fn, args, kwargs, node, star)
         if len(self.frames) > 40:
             raise Unsupported("inlining depth exceeded (recursion needs a contract)")
-        local = self.bind_args(fn, args, kwargs, node, star)
-        parent = fn.closure if fn.closure is not None else self.s.module_env(fn.module)
-        env = Env(local, parent)
-        if isinstance(fn.node, ast.Lambda):
-            self.frames.append(self.frames[-1] if self.frames else Frame(fn))
+        if isinstance(fn.node, ast.AsyncFunctionDef) and self.frames and not getattr(self, "_awaiting", 0):
+            raise Unsupported(f"coroutine object of {fn.qualname} created without being awaited at once")
+        aw_saved = getattr(self, "_awaiting", 0)
+        self._awaiting = 0
+        try:
+            local = self.bind_args(fn, args, kwargs, node, star)
+            parent = fn.closure if fn.closure is not None else self.s.module_env(fn.module)
+            env = Env(local, parent)
+            if isinstance(fn.node, ast.Lambda):
+                self.frames.append(self.frames[-1] if self.frames else Frame(fn))
+                try:
+                    return self.eval(fn.node.body, env)
+                finally:
+                    self.frames.pop()
+            self.frames.append(self.s.frame_for(fn))
             try:
-                return self.eval(fn.node.body, env)
+                self.exec_block(fn.node.body, env)
+                return None
+            except _Return as r:
+                return r.value
             finally:
                 self.frames.pop()
-        self.frames.append(self.s.frame_for(fn))
-        try:
-            self.exec_block(fn.node.body, env)
-            return None
-        except _Return as r:
-            return r.value
         finally:
-            self.frames.pop()
+            self._awaiting = aw_saved
 
 
 # --------------------------------------------------------------------------
